@@ -329,6 +329,51 @@ def run_multiline(task):
                 v.args = args
                 v.config_label = "terminator," + label
                 viols.append(v)
+    # tabs: a record is rendered like the same record with its tabs expanded beforehand and every submatch position moved
+    # by the tabs in front of it (exact spans also for a match that begins inside the indentation, `rg '^\s+return'`)
+    for code in ("\t\tmain x", "\tmain\tmain", " \t main", "\treturn\t1"):
+        cb = code.encode("utf-8")
+        for sub in ([(1, len(cb) - 1)], [(0, 3)], [(i, i + 1) for i in range(len(cb)) if cb[i:i + 1] == b"\t"],
+                    [(m.start(), m.end()) for m in re.finditer(rb"main|return", cb)]):
+            def moved(pos):
+                return pos + cb[:pos].count(b"\t") * (TABS - 1)
+            a_ = rg_record("match", "src/a.rs", 7, code + "\n", sub)
+            b_ = rg_record("match", "src/a.rs", 7, code.replace("\t", " " * TABS) + "\n", [(moved(x), moved(y)) for x, y in sub])
+            r1, r2 = drv.render(cid, [a_, b_])
+            n += 1
+            if (r1.panic or r1.out != r2.out) and not any(v.klass == "tab-submatch-differs" for v in viols):
+                v = Violation("tab-submatch-differs", "record %r with submatches %r is rendered differently from the record with "
+                              "the tabs expanded beforehand: %r vs %r" % (code, sub, (r1.panic or r1.out.decode("utf-8", "replace"))[-160:],
+                                                                         r2.out.decode("utf-8", "replace")[-160:]),
+                              a_.split(b"\n")[:-1], None, r2.out[:300], r1.out[:300])
+                v.args = args
+                v.config_label = "tabs," + label
+                viols.append(v)
+    # a line or a path that is not valid UTF-8 comes as {"bytes": base64}: rendered like the text with the undecodable
+    # bytes replaced (no highlighted span: the offsets refer to the bytes)
+    import base64
+    for raw_code in (b"caf\xe9 main", b"\xff", b"x \xe9\xe8 y main z"):
+        for raw_path in (b"src/a.rs", b"src/l\xe9.c"):
+            def obj(b):
+                try:
+                    return {"text": b.decode("utf-8")}
+                except UnicodeDecodeError:
+                    return {"bytes": base64.b64encode(b).decode()}
+            lossy = lambda b: b.decode("utf-8", "replace")
+            rec = {"type": "match", "data": {"path": obj(raw_path), "lines": obj(raw_code + b"\n"), "line_number": 7,
+                                             "absolute_offset": 0, "submatches": []}}
+            ref = rg_record("match", lossy(raw_path), 7, lossy(raw_code) + "\n", [])
+            tail = rg_record("context", lossy(raw_path), 8, "after\n", [])
+            r1, r2 = drv.render(cid, [json.dumps(rec).encode() + b"\n" + tail, ref + tail])
+            n += 1
+            if (r1.panic or r1.out != r2.out) and not any(v.klass == "bytes-record-differs" for v in viols):
+                v = Violation("bytes-record-differs", "an rg record with %r / %r given as bytes is rendered differently from the "
+                              "text record with the undecodable bytes replaced: %r vs %r"
+                              % (raw_path, raw_code, (r1.panic or r1.out.decode("utf-8", "replace"))[:200],
+                                 r2.out.decode("utf-8", "replace")[:200]), [json.dumps(rec).encode()], None, r2.out[:300], r1.out[:300])
+                v.args = args
+                v.config_label = "bytes," + label
+                viols.append(v)
     for k in ks:
         for codes in itertools.product(ML_CODES, repeat=k):
             for nl in ("\n", "\r\n"):
